@@ -10,10 +10,10 @@ CONSTANTS
  TxLock <- U_TxLock
  TxWit <- U_TxWit
  SlotParent <- U_SlotParent
- NFund = 3
+ NFund = 2
  Maturity = 1
  RejectRepl = FALSE
- MaxOrphans = 0
+ MaxOrphans = 1
  MaxOrphanSize = 1000
  MinRelayFee = 1000
  FreeLimit = 275
@@ -22,18 +22,8 @@ CONSTANTS
  MaxReorgTxs = 0
  Standalone = FALSE
  DisconnectEvicts = TRUE
- Standard = FALSE
+ Standard = TRUE
  Script <- U_Script
- TxWeight <- U_TxWeight
- TxSigCost <- U_TxSigCost
- Policies <- U_Policies
- Variants <- U_Variants
- CbWeight <- U_CbWeight
- H0 = 2
- HardDiff = FALSE
- CommitWeight = 224
 INIT Init
 NEXT Next
 INVARIANT Inv
-INVARIANT AlgoSound
-INVARIANT AlgoComplete
